@@ -13,7 +13,10 @@
 package pdsim
 
 import (
+	"fmt"
 	"os"
+	"sync"
+	"time"
 
 	"github.com/youzan/ZanRedisDB/cluster"
 	"github.com/youzan/ZanRedisDB/common"
@@ -29,18 +32,55 @@ func (nullLogger) Output(maxdepth int, s string) error        { return nil }
 func (nullLogger) OutputErr(maxdepth int, s string) error     { return nil }
 func (nullLogger) OutputWarning(maxdepth int, s string) error { return nil }
 
+// memLogger keeps the coordinator's log lines in memory (writing them to a
+// file descriptor from inside the bubble would let the Go scheduler switch
+// goroutines at every write). Debugging aid: PDSIM_LOG=1 prints them after
+// the run.
+type memLogger struct {
+	mu    sync.Mutex
+	lines []string
+}
+
+func (m *memLogger) add(s string) {
+	m.mu.Lock()
+	m.lines = append(m.lines, time.Now().Format("15:04:05.000 ")+s)
+	m.mu.Unlock()
+}
+func (m *memLogger) Output(maxdepth int, s string) error        { m.add(s); return nil }
+func (m *memLogger) OutputErr(maxdepth int, s string) error     { m.add("ERR " + s); return nil }
+func (m *memLogger) OutputWarning(maxdepth int, s string) error { m.add("WARN " + s); return nil }
+
+var memLog *memLogger
+
 func init() {
 	if os.Getenv("PDSIM_LOG") == "" {
 		cluster.SetLogger(-1, nullLogger{})
 	} else {
-		cluster.SetLogger(common.LOG_DEBUG, common.NewDefaultLogger("pd "))
+		memLog = &memLogger{}
+		cluster.SetLogger(common.LOG_INFO, memLog)
 	}
+}
+
+func dumpMemLog() {
+	if memLog == nil {
+		return
+	}
+	memLog.mu.Lock()
+	for _, l := range memLog.lines {
+		if len(l) > 600 {
+			l = l[:600]
+		}
+		fmt.Println("PD", l)
+	}
+	memLog.lines = nil
+	memLog.mu.Unlock()
 }
 
 func pick(t *core.Tape, vals ...int) int { return vals[t.Choose(len(vals))] }
 
 // Run executes one simulated run of the check selected by c.Prop.
 func Run(c *core.RunCtx) {
+	seedMapOrder(c.Tape.U32())
 	switch c.Prop {
 	case "C17":
 		runPlacement(c)
